@@ -5,6 +5,7 @@ package native
 import (
 	"math/big"
 	"runtime/debug"
+	"unicode/utf8"
 	"unsafe"
 
 	"github.com/bytedance/sonic/internal/native/avx2"
@@ -94,6 +95,14 @@ func VerifX86Replay() {
 			} else {
 				run(sse.F_vunsigned, "sse vunsigned")
 			}
+		}
+	case 4: // validate_utf8_fast
+		want := utf8.Valid(buf)
+		if both || variant == 1 {
+			v.Assert((avx2.F_validate_utf8_fast(unsafe.Pointer(&s)) == 0) == want, "avx2 validate_utf8_fast differs from unicode/utf8.Valid")
+		}
+		if both || variant == 2 {
+			v.Assert((sse.F_validate_utf8_fast(unsafe.Pointer(&s)) == 0) == want, "sse validate_utf8_fast differs from unicode/utf8.Valid")
 		}
 	default:
 		v.Assert(false, "x86 replay: routine not supported natively")
